@@ -12,7 +12,10 @@ import (
 	"crypto/elliptic"
 	"fmt"
 	"math/big"
+	"regexp"
 	"runtime"
+	"sort"
+	"sync"
 	"sync/atomic"
 
 	"github.com/bnb-chain/tss-lib/v2/crypto"
@@ -42,10 +45,17 @@ type kase struct {
 	run   func(k *kase) (stage string, detail string) // "" = pass
 }
 
+type failure struct {
+	k             *kase
+	stage, detail string
+}
+
 type runner struct {
 	r     *core.Run
 	cases []*kase
 	evals int64
+	mu    sync.Mutex
+	fails []failure
 }
 
 func (c *runner) add(k *kase) { c.cases = append(c.cases, k) }
@@ -72,11 +82,43 @@ func (c *runner) exec(k *kase) {
 		c.r.Violate(k.sys+"/honest/"+k.class+":panic", "panic on an honest case: "+fmt.Sprint(pan), k.rec)
 	case stage != "":
 		k.rec["detail"] = detail
-		c.r.Violate(k.sys+"/"+stage+"/"+k.class, "honest proof: "+stage+" "+detail, k.rec)
+		c.mu.Lock()
+		c.fails = append(c.fails, failure{k, stage, detail})
+		c.mu.Unlock()
 		c.r.Distinct("outcomes", k.sys+"/"+stage)
 	default:
 		c.r.Distinct("outcomes", k.sys+"/accepted+roundtrip")
 		c.r.Sample(8, k.rec)
+	}
+}
+
+var idxRe = regexp.MustCompile(`\\[\\d+\\]`)
+
+// report turns the collected failures into violations. When every case of a proof system fails in the same way the
+// finding does not depend on the witness/session class and is reported once; otherwise one finding per value class.
+func (c *runner) report() {
+	sort.Slice(c.fails, func(i, j int) bool { return c.fails[i].k.canon < c.fails[j].k.canon })
+	perSys := map[string]int{}
+	for _, k := range c.cases {
+		perSys[k.sys]++
+	}
+	groups := map[string]int{}
+	gkey := func(f failure) string { return f.k.sys + "/" + f.stage + "/" + f.detail }
+	for _, f := range c.fails {
+		groups[gkey(f)]++
+	}
+	for _, f := range c.fails {
+		what := "honest proof: " + f.stage + " " + f.detail
+		stage := f.stage
+		if stage == "roundtrip-component" {
+			stage += "/" + idxRe.ReplaceAllString(f.detail, "[i]")
+		}
+		if groups[gkey(f)] == perSys[f.k.sys] {
+			f.k.rec["failing_cases"] = groups[gkey(f)]
+			c.r.Violate(f.k.sys+"/"+stage+"/every-case", what+" (every enumerated case of this proof system)", f.k.rec)
+			continue
+		}
+		c.r.Violate(f.k.sys+"/"+stage+"/"+f.k.class, what, f.k.rec)
 	}
 }
 
@@ -721,6 +763,7 @@ func Run(r *core.Run) {
 
 	workers := runtime.NumCPU()
 	core.ParallelFor(len(c.cases), workers, func(i int) { c.exec(c.cases[i]) })
+	c.report()
 
 	r.Set("evaluations", int(atomic.LoadInt64(&c.evals)))
 	r.Set("distinct_nontrivial", r.NDistinct("cases"))
